@@ -371,6 +371,76 @@ theorem expression_ok {A : Option Assets} {t : Table} {r : Key → Nat} (hr : Ra
         exact hbn.1 (hin ▸ hrestmem n hn))
       (earlier_of_built _ _ brest (by simpa using hearly.2)) hrestargs hszok.2
       (fun n hn => hszall n (List.mem_cons_of_mem _ hn)) hinit
-    sorry
+    -- the last node is the sink
+    obtain ⟨bl, hbl, hbltail⟩ : ∃ bl, (b0 :: brest).getLast? = some bl ∧ bl.1 = tail := by
+      have h2 : ((b0 :: brest).map (·.1)).getLast? = some tail := by rw [hkeys']; simp
+      rw [List.getLast?_map] at h2
+      cases hg : (b0 :: brest).getLast? with
+      | none => simp [hg] at h2
+      | some bl => simp only [hg, Option.map_some, Option.some.injEq] at h2; exact ⟨bl, rfl, h2⟩
+    have hallkeys : ∀ k, k ∈ [b0.1] ++ rest.map (·.key) ↔ k ∈ (b0 :: brest).map (·.1) := by
+      intro k; rw [hrestkeys]; simp
+    have htailmem : tail ∈ [b0.1] ++ rest.map (·.key) := by
+      rw [hallkeys, hkeys']; simp
+    obtain ⟨dU, hgU, hlU⟩ := hfin.cnt tail htailmem
+    simp only [List.count_nil, if_true, Nat.zero_add] at hlU
+    obtain ⟨U, rfl⟩ : ∃ U, dU = [U] := by
+      match dU, hlU with
+      | [U], _ => exact ⟨U, rfl⟩
+    have hallempty : (p'.set tail []).all (fun e => e.2.isEmpty) = true := by
+      rw [List.all_eq_true]
+      intro e he
+      obtain ⟨k, d⟩ := e
+      have hkeys2 : (p'.set tail []).map (·.1) = b0.1 :: rest.map (·.key) := by
+        rw [Providers.set_keys _ _ _ (by simp [hgU]), hfin.keys]
+      have hnd2 : ((p'.set tail []).map (·.1)).Nodup := by
+        rw [hkeys2, hrestkeys]; exact List.nodup_cons.2 hbn
+      have hget := Providers.get_of_mem _ hnd2 he
+      rw [Providers.get_set] at hget
+      by_cases hk : k = tail
+      · simp only [hk, if_true, Option.some.injEq] at hget; simp [← hget]
+      · simp only [hk, if_false] at hget
+        have hkin : k ∈ [b0.1] ++ rest.map (·.key) := by
+          have : k ∈ (p'.set tail []).map (·.1) := List.mem_map_of_mem (f := (·.1)) he
+          rw [hkeys2] at this; simpa using this
+        obtain ⟨d', hg', hl'⟩ := hfin.cnt k hkin
+        rw [hget] at hg'; cases hg'
+        simp only [List.count_nil, hk, if_false, Nat.add_zero] at hl'
+        simp [List.length_eq_zero_iff.1 hl']
+    have hexp : expression A t = .ok U := by
+      unfold expression
+      rw [if_neg (by simp [nodup_hasDup_false hr.nodup])]
+      have hbuild : build A t = .ok (mkNode (b0 :: brest) b0 :: rest) := by
+        simp only [build, hord, hbuilt, List.map_cons]; rfl
+      have hlast : (mkNode (b0 :: brest) b0 :: rest).getLast? = some (mkNode (b0 :: brest) bl) := by
+        have : (mkNode (b0 :: brest) b0 :: rest) = (b0 :: brest).map (mkNode (b0 :: brest)) := rfl
+        rw [this, List.getLast?_map, hbl]; rfl
+      simp only [hbuild]
+      rw [hlast]
+      simp only
+      have hcond : (decide ((mkNode (b0 :: brest) bl).szout ≠ 0) || !(mkNode (b0 :: brest) b0).args.isEmpty) = false := by
+        have h1 : (mkNode (b0 :: brest) bl).szout = 0 := by
+          show countUses (b0 :: brest) bl.1 = 0
+          rw [hbltail]; exact hsz0
+        have h2 : (mkNode (b0 :: brest) b0).args = [] := hfirstargs
+        simp [h1, h2]
+      rw [if_neg (by rw [hcond]; simp)]
+      have hasm' : assemble rest ((((mkNode (b0 :: brest) b0).key,
+          fork (mkNode (b0 :: brest) b0).key (Term.raw (mkNode (b0 :: brest) b0).key (mkNode (b0 :: brest) b0).raw)
+            (mkNode (b0 :: brest) b0).szout)) :: rest.map (fun n => (n.key, [Term.raw n.key n.raw]))) = .ok p' := hasm
+      simp only [hasm']
+      have hlk : (mkNode (b0 :: brest) bl).key = tail := hbltail
+      rw [hlk, hgU]
+      simp only [hallempty, if_true]
+    obtain ⟨hd', sink', hs', _, ⟨ks', built', ho', hb', hh'⟩, hval⟩ := expression_sound hr ham.shape hexp
+    rw [hord] at ho'; cases ho'
+    rw [hbuilt] at hb'; cases hb'
+    simp only [List.head?_cons, Option.map_some, Option.some.injEq] at hh'
+    have hst : sink' = tail := by rw [hsinks] at hs'; simpa using hs'.symm
+    subst hst
+    refine ⟨U, hd, hexp, hheads, sink', hsinks, ?_⟩
+    intro x
+    rw [← hb0head, hh']
+    exact hval x
 
 end ForML.Flow.PyFunc
